@@ -1,5 +1,6 @@
 import Blf.Gen.Checks
 import Blf.Codec.Tables
+import Blf.Codec.Pre
 import Blf.Spec.PadObserved
 import Blf.Spec.ObjectTypes
 /-!
@@ -29,25 +30,25 @@ theorem exact_mem {p : Codec × Layout} (hp : p ∈ Gen.exactLayouts) : Reg p.1 
     `4 + Σ item sizes` plus `objectSize % 4` for padding classes, the stored `objectSize` is that length
     without the padding (mod 2^32), the stored `headerSize` is the size of the header items. -/
 theorem C03_framing (cfg : Cfg) (p : Codec × Layout) (hp : p ∈ Gen.exactLayouts) (o : Obj)
-    (hwf : ItemsWF (pre p.1 p.2 o) p.2.items) :
+    (hwf : UserWF p.2 o) :
     (p.1.encode cfg o).halt = .none ∧
     (p.1.encode cfg o).out = leBytes 4 ((pre p.1 p.2 o).num p.2.sigF) ++ encItems (pre p.1 p.2 o) p.2.items ∧
     (p.1.encode cfg o).out.length = 4 + itemsSize (pre p.1 p.2 o) p.2.body +
         (if p.2.padded then (pre p.1 p.2 o).num p.2.osF % 4 else 0) ∧
     (p.1.sizeExpr.eval (pre p.1 p.2 o)) % M32 = (4 + itemsSize (pre p.1 p.2 o) p.2.body) % M32 ∧
     p.1.hdrSizeExpr.eval (pre p.1 p.2 o) = 4 + itemsConst (p.2.items.take p.2.nHdr) :=
-  regular_frame cfg p.1 p.2 (exact_mem hp) o hwf
+  regular_frame_user cfg p.1 p.2 (exact_mem hp) o hwf
 
 /-- **C03 (decoding consumes exactly what was emitted)**, with arbitrary bytes following. -/
 theorem C03_consumes (cfg : Cfg) (hs : cfg.sticky = false) (p : Codec × Layout) (hp : p ∈ Gen.exactLayouts)
     (o o0 : Obj) (rest : Bytes)
-    (hwf : ItemsWF (pre p.1 p.2 o) p.2.items) (hsig : (pre p.1 p.2 o).num p.2.sigF = SIG)
+    (hwf : UserWF p.2 o) (hsig : o.num p.2.sigF = SIG)
     (harr : ArrOK o0 p.2.items)
-    (hcap : ∀ f ew len, Item.var f ew len ∈ p.2.items → (pre p.1 p.2 o).num len * ew ≤ cfg.cap) :
+    (hcap : ∀ f ew len, Item.var f ew len ∈ p.2.items → (o.buf f).length ≤ cfg.cap) :
     (p.1.decode cfg o0 ((p.1.encode cfg o).out ++ rest)).halt = .none ∧
     (p.1.decode cfg o0 ((p.1.encode cfg o).out ++ rest)).short = false ∧
     (p.1.decode cfg o0 ((p.1.encode cfg o).out ++ rest)).pos = (p.1.encode cfg o).out.length :=
-  let h := regular_roundtrip cfg hs p.1 p.2 (exact_mem hp) o o0 rest hwf hsig harr hcap
+  let h := regular_roundtrip_user cfg hs p.1 p.2 (exact_mem hp) o o0 rest hwf hsig harr hcap
   ⟨h.1, h.2.1, h.2.2.1⟩
 
 /-- the class the factory table assigns to a code, and whether it pads -/
@@ -73,7 +74,7 @@ theorem C03_pad_symmetric : (Gen.allCodecs.all fun c => c.pads || c.padFree) = t
 
 /-- non-vacuity: a concrete non-trivial object (AppText with a 5-byte text) meets the hypotheses -/
 example : match Gen.sample with
-    | some (c, lay, o) => ItemsWF (pre c lay o) lay.items ∧ (pre c lay o).num lay.sigF = SIG ∧
+    | some (c, lay, o) => ItemsWF (pre c lay o) lay.items ∧ o.num lay.sigF = SIG ∧
         (c, lay) ∈ Gen.exactLayouts ∧ ArrOK c.fresh lay.items
     | none => False := by
   simp only [Gen.sample]
